@@ -231,7 +231,7 @@ class Ctx:
         if z3.is_false(cond):
             return False
         i = len(self.decisions)
-        known = self._decided_before(cond)
+        known = self._decided_before(cond) if Ctx.reuse_decisions else None
         if known is not None:
             return known  # same comparison (up to normal form) already decided on this path: no new fork
         if i < len(self.prefix):
@@ -268,6 +268,8 @@ class Ctx:
         return self._CMP[cond.decl().kind()], cond.arg(0) - cond.arg(1), neg
 
     def _remember(self, cond, d):
+        if not Ctx.reuse_decisions:
+            return
         parts = self._cmp_parts(cond)
         if parts is not None and len(cond.sexpr()) > 200:  # only worth it for large terms
             op, diff, neg = parts
@@ -368,6 +370,7 @@ class Ctx:
                 return "sat", self._generic_model(s2)
         return r, self._generic_model(s)
 
+    reuse_decisions = False  # opt-in (relational harnesses with huge branch conditions): reuse decisions by normal form
     generic_models = True  # class-level switch; harnesses whose replays pick their own numbers turn it off
 
     def _generic_model(self, s, max_vars=80):
